@@ -371,7 +371,7 @@ class Body:
         return self.origin_place(op_place(op), bb, idx, depth)
 
     def origin_place(self, place, bb, idx, depth=0):
-        if depth > 40:
+        if depth > 150:
             return ("unknown", "depth")
         base = self.origin_local(place["l"], bb, idx, depth)
         t = base
@@ -393,7 +393,7 @@ class Body:
         return _simplify(t)
 
     def origin_local(self, local, bb, idx, depth=0):
-        if depth > 40:
+        if depth > 150:
             return ("unknown", "depth")
         rds = self.reaching_defs(local, bb, idx)
         if not rds:
@@ -404,12 +404,12 @@ class Body:
                 terms.append(("param", d[1], self.local_name(d[1])))
             elif d[0] == "s":
                 s = self.blocks[d[1]]["stmts"][d[2]]
-                terms.append(self.origin_rvalue(s["rv"], d[1], d[2], depth + 1))
+                terms.append(fold(self.origin_rvalue(s["rv"], d[1], d[2], depth + 1)))
             else:
                 t = self.term(d[1])
                 nst = len(self.blocks[d[1]]["stmts"])
                 args = tuple(self.origin_op(a, d[1], nst, depth + 1) for a in t["args"])
-                terms.append(("call", cname(t["func"]), args, d[1]))
+                terms.append(fold(("call", cname(t["func"]), args, d[1])))
         if len(terms) == 1:
             return terms[0]
         uniq = []
@@ -519,6 +519,77 @@ def _simplify(t):
             if inner[0] == "agg" and inner[1] == "adt" and inner[3] == base[2] and isinstance(t[3], int) and t[3] < len(inner[4]):
                 return inner[4][t[3]]
     return t
+
+
+# --------------------------------------------------------------------------------------
+# constant folding on origin terms
+# --------------------------------------------------------------------------------------
+
+def _cint(t):
+    if isinstance(t, tuple) and t[0] == "const" and t[1][0] == "int":
+        return t[1][1]
+    return None
+
+
+def _wrap(v, ty):
+    r = int_range(ty)
+    if r is None:
+        return v
+    lo, hi = r
+    span = hi - lo + 1
+    return ((v - lo) % span) + lo
+
+
+def fold(t):
+    if not isinstance(t, tuple):
+        return t
+    k = t[0]
+    if k == "bin":
+        a, b = _cint(t[2]), _cint(t[3])
+        op = t[1]
+        ty = t[4]
+        if a is not None and b is not None:
+            if op in ("Eq", "Ne", "Lt", "Le", "Gt", "Ge"):
+                r = {"Eq": a == b, "Ne": a != b, "Lt": a < b, "Le": a <= b, "Gt": a > b, "Ge": a >= b}[op]
+                return ("const", ("int", int(r), "bool"))
+            if op in ("BitOr", "BitAnd", "BitXor") and ty != "bool":
+                r = {"BitOr": a | b, "BitAnd": a & b, "BitXor": a ^ b}[op]
+                return ("const", ("int", _wrap(r, ty), ty))
+            if op in ("BitOr", "BitAnd", "BitXor") and ty == "bool":
+                r = {"BitOr": a | b, "BitAnd": a & b, "BitXor": a ^ b}[op]
+                return ("const", ("int", r & 1, "bool"))
+            if op in ("Add", "Sub", "Mul") and int_range(ty):
+                r = {"Add": a + b, "Sub": a - b, "Mul": a * b}[op]
+                lo, hi = int_range(ty)
+                if lo <= r <= hi:
+                    return ("const", ("int", r, ty))
+            if op in ("Shl",) and int_range(ty) and 0 <= b < 128:
+                return ("const", ("int", _wrap(a << b, ty), ty))
+            if op in ("Shr",) and int_range(ty) and 0 <= b < 128:
+                return ("const", ("int", a >> b, ty))
+            if op == "Div" and b != 0 and a >= 0 and b > 0:
+                return ("const", ("int", a // b, ty))
+            if op == "Rem" and b != 0 and a >= 0 and b > 0:
+                return ("const", ("int", a % b, ty))
+    elif k == "un":
+        a = _cint(t[2])
+        if a is not None and t[1] == "Not" and t[2][1][2] == "bool":
+            return ("const", ("int", 1 - a, "bool"))
+    elif k == "cast":
+        a = _cint(t[1])
+        if a is not None and t[3] == "IntToInt" and int_range(t[2]):
+            return ("const", ("int", _wrap(a, t[2]), t[2]))
+    elif k == "call" and len(t[2]) == 1 and t[1].endswith("slice::<impl [T]>::len"):
+        a = t[2][0]
+        if isinstance(a, tuple) and a[0] == "const" and a[1][0] == "bytes":
+            return ("const", ("int", len(a[1][1]), "usize"))
+    elif k == "discr":
+        inner = t[1]
+        if isinstance(inner, tuple) and inner[0] == "agg" and inner[1] == "adt":
+            return ("discr_of_variant", inner[2], inner[3])
+    return t
+
+
 
 
 def term_contains(t, pred, depth=0):
